@@ -175,7 +175,15 @@ def step (st : St) (line : String) : St × String :=
     storeM st d (some (StdMap.mapValues (fun _ v => Int.tmod (v + int c) 1000) (getM st s)))
   | ["mall", s, p, c] => (st, showB (StdMap.forAll (predKV p (int c)) (getM st s)))
   | ["many", s, p, c] => (st, showB (StdMap.«exists» (predKV p (int c)) (getM st s)))
+  | ["mcmp", a, b] => (st, showI (StdMap.compare cmp (fun x y => x - y) (getM st a) (getM st b)))
+  | ["meq", a, b] => (st, showB (StdMap.equal cmp (fun x y => x == y) (getM st a) (getM st b)))
+  | ["miter", s] => (st, StdMap.iter (fun k v (acc : String) => acc ++ s!"{k}:{v};") (getM st s) "" ++ "end")
+  | ["mmink", s] => (st, showOptI (StdMap.minKey (getM st s)))
+  | ["mmaxk", s] => (st, showOptI (StdMap.maxKey (getM st s)))
   -- sets
+  | ["scmp", a, b] => (st, showI (StdSet.compare cmp cmp (getS st a) (getS st b)))
+  | ["seq", a, b] => (st, showB (StdSet.equal cmp (fun x y => x == y) (getS st a) (getS st b)))
+  | ["siter", s] => (st, StdSet.iter (fun v (acc : String) => acc ++ s!"{v};") (getS st s) "" ++ "end")
   | ["sins", d, s, x] => storeS st d (StdSet.insert cmp (getS st s) (int x))
   | ["srem", d, s, x] => storeS st d (StdSet.remove cmp (getS st s) (int x))
   | ["shas", s, x] => (st, showB (StdSet.contains cmp (getS st s) (int x)))
